@@ -111,3 +111,411 @@ Proof.
     { symmetry. apply (N.div_unique (size + D - 1) D (q + 1) (m - 1)); [lia|]. rewrite E. nia. }
     rewrite Hq. rewrite E. nia.
 Qed.
+
+(* ------------------------------------------------------------------ the read path *)
+Section Read.
+  Variables (d p : nat) (size : N) (md5 : sdata -> N).
+  Variable rs_verify : list (option sdata) -> bool.
+  Variable rs_reconstruct : list (option sdata) -> option (list (option sdata)).
+  Hypothesis Hd : 1 <= d.
+  Hypothesis Hsize : (1 <= size)%N.
+
+  Notation n := (d + p).
+  Notation Lc := (perShard d size).
+  Notation tp := (truepad d size).
+  Notation getOne := (getOne d size md5 rs_verify rs_reconstruct).
+  Notation decode := (decode d size md5 rs_verify rs_reconstruct).
+  Notation detectBad := (detectBadShardsThenReconstruct d size md5 rs_verify rs_reconstruct).
+  Notation keep := (keep_shard d size md5).
+  Notation intact := (intact d size md5).
+
+  (* what a reader goroutine hands over *)
+  Definition view (s : dshard) : option (meta * sdata) :=
+    match s with
+    | SFile len pad sum data => if (len <=? MetaDataSize)%N then None else Some ((pad, sum), data)
+    | SMissing => None
+    end.
+  Definition sv (s : dshard) : option sdata := option_map snd (view s).
+  Definition mv (s : dshard) : option meta := option_map fst (view s).
+  Definition kept1 (s : dshard) : option sdata := keep (sv s, mv s).
+
+  Lemma read_shard_view s : read_shard s = Ok (view s).
+  Proof.
+    destruct s as [|len pad sum data]; cbn; [reflexivity|].
+    destruct (len <=? MetaDataSize)%N eqn:E; [reflexivity|].
+    unfold go_slice. apply N.leb_gt in E. destruct (len <? MetaDataSize)%N eqn:E2; [apply N.ltb_lt in E2; lia|reflexivity].
+  Qed.
+
+  Lemma mapM_read disk : mapM read_shard disk = Ok (map view disk).
+  Proof. induction disk as [|s r IH]; cbn; [reflexivity|]. rewrite read_shard_view. cbn. rewrite IH. reflexivity. Qed.
+
+  Lemma readable_view s : readable s = match view s with Some _ => true | None => false end.
+  Proof.
+    destruct s as [|len pad sum data]; cbn; [reflexivity|].
+    destruct (len <=? MetaDataSize)%N eqn:E, (MetaDataSize <? len)%N eqn:E2; try reflexivity.
+    - apply N.leb_le in E. apply N.ltb_lt in E2. lia.
+    - apply N.leb_gt in E. apply N.ltb_ge in E2. lia.
+  Qed.
+
+  Lemma first_meta_pad disk : option_map fst (first_meta (map mv disk)) = first_readable_pad disk.
+  Proof.
+    induction disk as [|s r IH]; cbn; [reflexivity|].
+    rewrite readable_view. unfold mv at 1. destruct s as [|len pad sum data]; cbn; [exact IH|].
+    destruct (len <=? MetaDataSize)%N; cbn; [exact IH|reflexivity].
+  Qed.
+
+  Lemma first_meta_none disk : first_meta (map mv disk) = None -> forallb (fun s => negb (readable s)) disk = true.
+  Proof.
+    induction disk as [|s r IH]; cbn [map first_meta forallb]; [reflexivity|]. rewrite readable_view. unfold mv at 1.
+    destruct (view s); cbn; [discriminate|exact IH].
+  Qed.
+
+  Lemma all_nil_sv disk : all_nil (map sv disk) = forallb (fun s => negb (readable s)) disk.
+  Proof.
+    unfold all_nil. induction disk as [|s r IH]; cbn [map forallb]; [reflexivity|]. rewrite IH, readable_view. unfold sv.
+    destruct (view s); reflexivity.
+  Qed.
+
+  Lemma Lc_nz : (dlen Lc DGood =? 0)%N = false.
+  Proof. cbn. pose proof (perShard_pos d size Hd Hsize). apply N.eqb_neq. lia. Qed.
+
+  Lemma intact_kept s : intact s = true -> kept1 s = Some DGood /\ sv s = Some DGood.
+  Proof.
+    destruct s as [|len pad sum data]; cbn; [discriminate|]. intros H.
+    apply andb_prop in H as [H Hg]. apply andb_prop in H as [H Hs]. apply andb_prop in H as [Hl Hp].
+    destruct data; try discriminate. apply N.ltb_lt in Hl. apply N.eqb_eq in Hs.
+    unfold kept1, sv, mv, view. destruct (len <=? MetaDataSize)%N eqn:E; [apply N.leb_le in E; lia|].
+    cbn [option_map fst snd keep_shard]. fold (L d size). unfold L. rewrite Lc_nz. subst sum. rewrite N.eqb_refl. split; reflexivity.
+  Qed.
+
+  Lemma kept1_sv s x : kept1 s = Some x -> sv s = Some x.
+  Proof.
+    unfold kept1, sv, mv. destruct (view s) as [[[pad sum] data]|]; cbn; [|discriminate].
+    destruct (dlen _ data =? 0)%N; [discriminate|]. destruct (md5 data =? sum)%N; [|discriminate]. now intros [= <-].
+  Qed.
+
+  Lemma kept1_good disk s x : md5_detects md5 disk -> In s disk -> kept1 s = Some x -> x = DGood.
+  Proof.
+    intros Hm Hin. unfold kept1, sv, mv. destruct s as [|len pad sum data]; cbn; [discriminate|].
+    destruct (len <=? MetaDataSize)%N eqn:E; cbn; [discriminate|]. apply N.leb_gt in E.
+    destruct (dlen _ data =? 0)%N; [discriminate|]. destruct (md5 data =? sum)%N eqn:Es; [|discriminate].
+    intros [= <-]. apply N.eqb_eq in Es. apply (Hm len pad sum data Hin E). now symmetry.
+  Qed.
+
+  Lemma sv_notgood_damaged s : negb (good_opt (sv s)) = true -> negb (intact s) = true.
+  Proof.
+    intros H. destruct (intact s) eqn:E; [|reflexivity]. destruct (intact_kept s E) as [_ Hs]. rewrite Hs in H. discriminate.
+  Qed.
+
+  (* the part of Decode after the shards have been verified / rebuilt *)
+  Definition finish (metas : list (option meta)) (sh : list (option sdata)) (idx : list nat) : res (list sdata * N * list nat) :=
+    bind (go_index sh 0) (fun s0 =>
+      match join d sh with
+      | None => Err EJoin
+      | Some joined =>
+        let blen := (match s0 with Some x => dlen Lc x | None => 0 end * N.of_nat d)%N in
+        match first_meta metas with
+        | None => Err ENoMeta
+        | Some (pad, _) =>
+          if (N.of_nat d <=? pad)%N || (blen <? pad)%N then Err EPad
+          else bind (go_make blen pad) (fun _ => Ok (joined, pad, idx))
+        end
+      end).
+
+  Lemma decode_unfold shards metas : shards <> [] ->
+    decode shards metas =
+    bind (if rs_verify shards then Ok (shards, []) else detectBad shards metas) (fun '(sh, idx) => finish metas sh idx).
+  Proof. destruct shards; [congruence|reflexivity]. Qed.
+
+  Lemma finish_no_panic metas sh idx : sh <> [] -> finish metas sh idx <> Panic.
+  Proof.
+    intros Hne. unfold finish, go_index. destruct sh as [|s0 r]; [congruence|]. cbn [nth_error bind].
+    destruct (join d (s0 :: r)); [|discriminate]. destruct (first_meta metas) as [[pad sum]|]; [|discriminate].
+    destruct (N.of_nat d <=? pad)%N; cbn [orb]; [discriminate|].
+    destruct (_ <? pad)%N eqn:E; [discriminate|]. unfold go_make. rewrite E. cbn. discriminate.
+  Qed.
+
+  Lemma finish_good metas idx pad sum :
+    first_meta metas = Some (pad, sum) ->
+    finish metas (repeat (Some DGood) n) idx =
+      if (N.of_nat d <=? pad)%N then Err EPad else Ok (repeat DGood d, pad, idx).
+  Proof.
+    intros Hm. unfold finish, go_index. destruct n as [|m] eqn:En; [lia|]. cbn [repeat nth_error bind].
+    change (Some DGood :: repeat (Some DGood) m) with (repeat (Some DGood) (S m)). rewrite join_repeat by lia.
+    rewrite Hm. cbn [dlen]. destruct (N.of_nat d <=? pad)%N eqn:E; cbn [orb]; [reflexivity|].
+    apply N.leb_gt in E. pose proof (perShard_pos d size Hd Hsize) as HL.
+    assert (Hlt : (Lc * N.of_nat d <? pad)%N = false) by (apply N.ltb_ge; nia).
+    rewrite Hlt. unfold go_make. rewrite Hlt. reflexivity.
+  Qed.
+
+  (* ---------------- getOne in terms of the disk *)
+  Definition kept (disk : list dshard) : list (option sdata) := map kept1 disk.
+
+  Lemma getOne_unfold rep wf disk :
+    forallb (fun s => negb (readable s)) disk = false ->
+    fst (getOne rep wf disk) =
+      match decode (map sv disk) (map mv disk) with
+      | Ok (j, pad, _) => Ok (j, pad) | Err e => Err e | Panic => Panic end.
+  Proof.
+    intros Hr. unfold EC.getOne. rewrite mapM_read. rewrite !map_map.
+    change (map (fun x => option_map snd (view x)) disk) with (map sv disk).
+    change (map (fun x => option_map fst (view x)) disk) with (map mv disk).
+    rewrite all_nil_sv, Hr. destruct (decode _ _) as [[[j pad] idx]| |]; reflexivity.
+  Qed.
+
+  Lemma detectBad_unfold disk :
+    detectBad (map sv disk) (map mv disk) =
+    match nil_positions 0 (kept disk) with
+    | [] => Err EChecksumsPass
+    | bad => match rs_reconstruct (kept disk) with
+             | None => Err EReconstruct
+             | Some rebuilt => if rs_verify rebuilt then Ok (rebuilt, bad) else Err EVerify
+             end
+    end.
+  Proof.
+    unfold detectBadShardsThenReconstruct. rewrite combine_map_same. rewrite map_map.
+    change (map (fun x => keep (sv x, mv x)) disk) with (kept disk).
+    destruct (nil_positions 0 (kept disk)); reflexivity.
+  Qed.
+
+  Lemma kept_all_some_eq disk : (forall o, In o (kept disk) -> exists x, o = Some x) -> kept disk = map sv disk.
+  Proof.
+    unfold kept. induction disk as [|s r IH]; intros H; cbn [map]; [reflexivity|].
+    destruct (H (kept1 s) (or_introl eq_refl)) as [x Hx]. rewrite (kept1_sv _ _ Hx), Hx. f_equal.
+    apply IH. intros o Ho. apply H. now right.
+  Qed.
+
+  Lemma count_present_kept disk : length (filter intact disk) <= count_present (kept disk).
+  Proof.
+    unfold count_present, kept. rewrite filter_map_length. apply filter_length_impl.
+    intros s _ Hi. destruct (intact_kept s Hi) as [-> _]. reflexivity.
+  Qed.
+
+  Lemma count_notgood_sv disk : count_notgood (map sv disk) <= damaged d size md5 disk.
+  Proof.
+    unfold count_notgood, damaged. rewrite filter_map_length. apply filter_length_impl.
+    intros s _. apply sv_notgood_damaged.
+  Qed.
+
+  Lemma intact_count disk : length disk = n -> damaged d size md5 disk <= p -> d <= length (filter intact disk).
+  Proof. intros Hl Hdm. unfold damaged in Hdm. pose proof (filter_negb_length intact disk). lia. Qed.
+
+  Lemma some_readable disk : 1 <= length (filter intact disk) -> forallb (fun s => negb (readable s)) disk = false.
+  Proof.
+    induction disk as [|s r IH]; cbn; [lia|]. intros H. destruct (intact s) eqn:E.
+    - destruct s as [|len pad sum data]; cbn in E; [discriminate|]. cbn.
+      destruct (MetaDataSize <? len)%N; [reflexivity|discriminate].
+    - rewrite IH by exact H. apply andb_false_r.
+  Qed.
+
+  Hypothesis HC : rs_contract d p rs_verify rs_reconstruct.
+
+  Lemma kept_all_good disk : md5_detects md5 disk -> forall x, In (Some x) (kept disk) -> x = DGood.
+  Proof.
+    intros Hm x Hin. unfold kept in Hin. apply in_map_iff in Hin as [s [Hs Hin]]. exact (kept1_good disk s x Hm Hin Hs).
+  Qed.
+
+  (* slow path: the first Verify failed *)
+  Lemma slow_path disk : length disk = n -> md5_detects md5 disk -> rs_verify (map sv disk) = false ->
+    detectBad (map sv disk) (map mv disk) =
+      if count_present (kept disk) <? d then Err EReconstruct
+      else Ok (repeat (Some DGood) n, nil_positions 0 (kept disk)).
+  Proof.
+    intros Hl Hm Hv. rewrite detectBad_unfold.
+    assert (Hlk : length (kept disk) = n) by (unfold kept; now rewrite map_length).
+    destruct (nil_positions 0 (kept disk)) as [|b bs] eqn:Eb.
+    - exfalso. pose proof (nil_positions_nil _ _ Eb) as Hall.
+      rewrite <- (kept_all_some_eq disk Hall) in Hv.
+      assert (Hk : kept disk = repeat (Some DGood) n).
+      { rewrite <- Hlk. apply all_repeat. intros o Ho. destruct (Hall o Ho) as [x ->]. f_equal. exact (kept_all_good disk Hm x Ho). }
+      rewrite Hk, (rs_V1 _ _ _ _ HC) in Hv. discriminate.
+    - destruct (count_present (kept disk) <? d) eqn:Ec.
+      + apply Nat.ltb_lt in Ec. now rewrite (rs_R1 _ _ _ _ HC _ Hlk Ec).
+      + apply Nat.ltb_ge in Ec. rewrite (rs_R2 _ _ _ _ HC _ Hlk Ec (kept_all_good disk Hm)).
+        now rewrite (rs_V1 _ _ _ _ HC).
+  Qed.
+
+  (* ---------------- C25_read *)
+  Lemma read_ok rep wf disk :
+    length disk = n -> damaged d size md5 disk <= p -> md5_detects md5 disk -> first_pad_intact d size disk ->
+    fst (getOne rep wf disk) = Ok (original d size).
+  Proof.
+    intros Hl Hdm Hm Hpad.
+    pose proof (intact_count disk Hl Hdm) as Hi.
+    assert (Hr : forallb (fun s => negb (readable s)) disk = false) by (apply some_readable; lia).
+    rewrite (getOne_unfold rep wf disk Hr).
+    assert (Hne : map sv disk <> []) by (destruct disk; [cbn in Hl; lia|discriminate]).
+    rewrite (decode_unfold _ _ Hne).
+    (* the pad count used *)
+    assert (Hfm : exists sum, first_meta (map mv disk) = Some (tp, sum)).
+    { pose proof (first_meta_pad disk) as E. destruct (first_meta (map mv disk)) as [[pad sum]|] eqn:Ef.
+      - cbn in E. exists sum. now rewrite (Hpad pad (eq_sym E)).
+      - rewrite (first_meta_none disk Ef) in Hr. discriminate. }
+    destruct Hfm as [sum Hfm].
+    pose proof (truepad_lt d size Hd) as Htp.
+    assert (Hfin : forall idx, finish (map mv disk) (repeat (Some DGood) n) idx = Ok (repeat DGood d, tp, idx)).
+    { intros idx. rewrite (finish_good _ idx _ _ Hfm). destruct (N.of_nat d <=? tp)%N eqn:E; [apply N.leb_le in E; lia|reflexivity]. }
+    destruct (rs_verify (map sv disk)) eqn:Hv.
+    - assert (Hg : map sv disk = repeat (Some DGood) n).
+      { apply (rs_V2 _ _ _ _ HC); [now rewrite map_length| |exact Hv]. pose proof (count_notgood_sv disk). lia. }
+      cbn [bind]. rewrite Hg, Hfin. reflexivity.
+    - rewrite (slow_path disk Hl Hm Hv).
+      pose proof (count_present_kept disk) as Hc.
+      destruct (count_present (kept disk) <? d) eqn:Ec; [apply Nat.ltb_lt in Ec; lia|].
+      cbn [bind]. rewrite Hfin. reflexivity.
+  Qed.
+
+  (* ---------------- C25_no_panic *)
+  Lemma no_panic rep wf disk : fst (getOne rep wf disk) <> Panic.
+  Proof.
+    destruct (forallb (fun s => negb (readable s)) disk) eqn:Hr.
+    - unfold EC.getOne. rewrite mapM_read, !map_map.
+      change (map (fun x => option_map snd (view x)) disk) with (map sv disk). rewrite all_nil_sv, Hr. discriminate.
+    - rewrite (getOne_unfold rep wf disk Hr).
+      assert (Hne : map sv disk <> []) by (destruct disk; [discriminate|discriminate]).
+      rewrite (decode_unfold _ _ Hne).
+      destruct (rs_verify (map sv disk)).
+      + cbn [bind]. pose proof (finish_no_panic (map mv disk) (map sv disk) [] Hne) as Hf.
+        destruct (finish _ _ _) as [[[j pad] idx]| |]; [discriminate|discriminate|congruence].
+      + rewrite detectBad_unfold. destruct (nil_positions 0 (kept disk)) as [|b bs]; [discriminate|].
+        destruct (rs_reconstruct (kept disk)) as [rebuilt|] eqn:Er; [|discriminate].
+        destruct (rs_verify rebuilt); [|discriminate]. cbn [bind].
+        assert (Hrn : rebuilt <> []).
+        { pose proof (rs_R0 _ _ _ _ HC _ _ Er) as Hlen. unfold kept in Hlen. rewrite map_length in Hlen.
+          destruct rebuilt; [destruct disk; [discriminate|discriminate]|discriminate]. }
+        pose proof (finish_no_panic (map mv disk) rebuilt (b :: bs) Hrn) as Hf.
+        destruct (finish _ _ _) as [[[j pad] idx]| |]; [discriminate|discriminate|congruence].
+  Qed.
+
+  (* ---------------- C25_excess: any amount of damage *)
+  Lemma sv_good_not_dd s : sv s = Some DGood -> data_damaged s = false.
+  Proof.
+    unfold sv. destruct s as [|len pad sum data]; cbn; [discriminate|].
+    destruct (len <=? MetaDataSize)%N; cbn; [discriminate|]. now intros [= ->].
+  Qed.
+
+  Lemma present_plus_dd disk : md5_detects md5 disk -> count_present (kept disk) + data_damaged_count disk <= length disk.
+  Proof.
+    intros Hm. unfold count_present, kept, data_damaged_count. rewrite filter_map_length.
+    rewrite <- (filter_negb_length data_damaged disk).
+    assert (length (filter (fun x => match kept1 x with Some _ => true | None => false end) disk)
+            <= length (filter (fun x => negb (data_damaged x)) disk)); [|lia].
+    apply filter_length_impl. intros s Hin Hk. destruct (kept1 s) as [x|] eqn:Ek; [|discriminate].
+    rewrite (kept1_good disk s x Hm Hin Ek) in Ek. now rewrite (sv_good_not_dd s (kept1_sv _ _ Ek)).
+  Qed.
+
+  Lemma readable_first_meta disk : forallb (fun s => negb (readable s)) disk = false ->
+    exists pad sum, first_meta (map mv disk) = Some (pad, sum) /\ first_readable_pad disk = Some pad.
+  Proof.
+    intros Hr. pose proof (first_meta_pad disk) as E. destruct (first_meta (map mv disk)) as [[pad sum]|] eqn:Ef.
+    - exists pad, sum. split; [reflexivity|]. now rewrite <- E.
+    - rewrite (first_meta_none disk Ef) in Hr. discriminate.
+  Qed.
+
+  Lemma read_safe rep wf disk j pad :
+    length disk = n -> md5_detects md5 disk -> rs_verify_exact d p rs_verify ->
+    fst (getOne rep wf disk) = Ok (j, pad) -> j = repeat DGood d /\ first_readable_pad disk = Some pad.
+  Proof.
+    intros Hl Hm Hx.
+    destruct (forallb (fun s => negb (readable s)) disk) eqn:Hr.
+    - unfold EC.getOne. rewrite mapM_read, !map_map.
+      change (map (fun x => option_map snd (view x)) disk) with (map sv disk). rewrite all_nil_sv, Hr. discriminate.
+    - rewrite (getOne_unfold rep wf disk Hr).
+      assert (Hne : map sv disk <> []) by (destruct disk; [cbn in Hl; lia|discriminate]).
+      rewrite (decode_unfold _ _ Hne).
+      destruct (readable_first_meta disk Hr) as [pad0 [sum0 [Hfm Hfp]]].
+      assert (Hfin : forall idx, match finish (map mv disk) (repeat (Some DGood) n) idx with
+                                 | Ok (j', pad', _) => Ok (j', pad') | Err e => Err e | Panic => Panic end = Ok (j, pad) ->
+                                 j = repeat DGood d /\ first_readable_pad disk = Some pad).
+      { intros idx. rewrite (finish_good _ idx _ _ Hfm). destruct (N.of_nat d <=? pad0)%N; [discriminate|].
+        intros [= <- <-]. split; [reflexivity|exact Hfp]. }
+      destruct (rs_verify (map sv disk)) eqn:Hv.
+      + cbn [bind]. rewrite (Hx _ Hv). apply Hfin.
+      + rewrite (slow_path disk Hl Hm Hv). destruct (count_present (kept disk) <? d); [discriminate|].
+        cbn [bind]. apply Hfin.
+  Qed.
+
+  Lemma excess_err rep wf disk :
+    length disk = n -> md5_detects md5 disk -> rs_verify_exact d p rs_verify ->
+    p < data_damaged_count disk -> exists e, fst (getOne rep wf disk) = Err e.
+  Proof.
+    intros Hl Hm Hx Hdd.
+    destruct (forallb (fun s => negb (readable s)) disk) eqn:Hr.
+    - exists EAllMissing. unfold EC.getOne. rewrite mapM_read, !map_map.
+      change (map (fun x => option_map snd (view x)) disk) with (map sv disk). now rewrite all_nil_sv, Hr.
+    - rewrite (getOne_unfold rep wf disk Hr).
+      assert (Hne : map sv disk <> []) by (destruct disk; [cbn in Hl; lia|discriminate]).
+      rewrite (decode_unfold _ _ Hne).
+      destruct (rs_verify (map sv disk)) eqn:Hv.
+      + exfalso. pose proof (Hx _ Hv) as Hg. unfold all_good in Hg.
+        assert (H0 : data_damaged_count disk = 0).
+        { unfold data_damaged_count. clear - Hg. revert Hg. generalize n as m. induction disk as [|s r IH]; intros m Hg; [reflexivity|].
+          destruct m as [|m]; [discriminate|]. cbn in Hg. injection Hg as Hs Hr. cbn. rewrite (sv_good_not_dd s Hs). exact (IH m Hr). }
+        lia.
+      + rewrite (slow_path disk Hl Hm Hv). pose proof (present_plus_dd disk Hm) as Hc.
+        destruct (count_present (kept disk) <? d) eqn:Ec; [now exists EReconstruct|].
+        apply Nat.ltb_ge in Ec. lia.
+  Qed.
+End Read.
+
+(* ------------------------------------------------------------------ the write path *)
+Section Write.
+  Variables (d p : nat) (size : N) (md5 : sdata -> N).
+  Hypothesis Hd : 1 <= d.
+  Hypothesis Hsize : (1 <= size)%N.
+  Notation gf := (good_file d size md5).
+
+  Lemma good_file_intact : intact d size md5 gf = true.
+  Proof.
+    unfold good_file, intact, L. pose proof (perShard_pos d size Hd Hsize).
+    rewrite !N.eqb_refl. cbn [is_dgood]. rewrite !andb_true_r. apply N.ltb_lt. lia.
+  Qed.
+
+  Lemma add_ok_iff wf disk : fst (add d p size md5 wf disk) = Ok tt <-> count_fail (length disk) wf <= p.
+  Proof.
+    unfold add. destruct (size =? 0)%N eqn:E; [apply N.eqb_eq in E; lia|]. cbn [fst].
+    destruct (p <? count_fail (length disk) wf) eqn:Ec.
+    - apply Nat.ltb_lt in Ec. split; [discriminate|lia].
+    - apply Nat.ltb_ge in Ec. split; [intros _; exact Ec|reflexivity].
+  Qed.
+
+  Lemma add_empty wf disk : fst (add d p 0 md5 wf disk) = Err EShortData /\ snd (add d p 0 md5 wf disk) = disk.
+  Proof. split; reflexivity. Qed.
+
+  Lemma write_all_length i wf disk : length (write_all d size md5 i wf disk) = length disk.
+  Proof. revert i; induction disk as [|s r IH]; intros i; cbn; [reflexivity|now rewrite IH]. Qed.
+
+  Lemma write_all_damaged i wf disk :
+    damaged d size md5 (write_all d size md5 i wf disk) <= length (filter wf (seq i (length disk))).
+  Proof.
+    unfold damaged. revert i; induction disk as [|s r IH]; intros i; cbn [write_all length seq filter]; [lia|].
+    specialize (IH (S i)). destruct (wf i) eqn:E; cbn [filter length].
+    - destruct (negb (intact d size md5 s)); cbn [length]; lia.
+    - rewrite good_file_intact. cbn [negb]. exact IH.
+  Qed.
+
+  Lemma write_all_fresh_in i wf k s : In s (write_all d size md5 i wf (repeat SMissing k)) -> s = SMissing \/ s = gf.
+  Proof.
+    revert i; induction k as [|k IH]; intros i; cbn; [tauto|]. intros [H|H].
+    - destruct (wf i); [left|right]; now symmetry.
+    - exact (IH _ H).
+  Qed.
+
+  Lemma fresh_md5_detects wf k : md5_detects md5 (write_all d size md5 0 wf (repeat SMissing k)).
+  Proof.
+    intros len pad sum data Hin _ _. destruct (write_all_fresh_in _ _ _ _ Hin) as [H|H]; [discriminate|].
+    unfold good_file in H. now injection H as _ _ _ ->.
+  Qed.
+
+  Lemma good_file_readable : readable gf = true.
+  Proof. unfold good_file, readable, L. pose proof (perShard_pos d size Hd Hsize). apply N.ltb_lt. lia. Qed.
+
+  Lemma fresh_pad_intact wf k : first_pad_intact d size (write_all d size md5 0 wf (repeat SMissing k)).
+  Proof.
+    unfold first_pad_intact. generalize 0 as i. induction k as [|k IH]; intros i v; cbn [repeat write_all first_readable_pad]; [discriminate|].
+    destruct (wf i).
+    - cbn [readable]. apply IH.
+    - rewrite good_file_readable. unfold good_file. now intros [= <-].
+  Qed.
+End Write.
+
